@@ -53,6 +53,11 @@ func CloneInto(src, dst Model) {
 		return
 	}
 
+	// decode into a zeroed destination: encoding/json keeps the entries of a
+	// map the destination already holds
+	if v := reflect.ValueOf(dst); v.Kind() == reflect.Ptr && !v.IsNil() {
+		v.Elem().Set(reflect.Zero(v.Elem().Type()))
+	}
 	aBytes, _ := json.Marshal(src)
 	_ = json.Unmarshal(aBytes, dst)
 }
